@@ -268,6 +268,7 @@ def run(chk):
     lp = repo.lookup_method(dm, cls, 'LibraryProgram')
     if lp is None:
       continue
+    lp = templates.with_class_attrs(repo, dm, cls, lp)
     rets = [x for x in walk_local(lp.node) if isinstance(x, ast.Return)]
     modname = dotted(rets[0].value).split('.')[0] if rets and dotted(rets[0].value) else None
     if modname is None:
